@@ -191,12 +191,14 @@ func BuildQuerySQL(db *gorm.DB) {
 
 							{
 								onStmt := gorm.Statement{Table: tableAliasName, DB: db, Clauses: map[string]clause.Clause{}}
-								for _, c := range relation.FieldSchema.QueryClauses {
-									onStmt.AddClause(c)
-								}
-
+								// the caller's ON conditions first: the query clauses of the joined model (its
+								// soft-delete filter) then apply to them as a whole, OR alternatives included
 								if join.On != nil {
 									onStmt.AddClause(join.On)
+								}
+
+								for _, c := range relation.FieldSchema.QueryClauses {
+									onStmt.AddClause(c)
 								}
 
 								if cs, ok := onStmt.Clauses["WHERE"]; ok {
